@@ -93,6 +93,7 @@ def worker_cmd() -> list[str]:
 
 
 if __name__ == "__main__":
-    from vgi_rpc.rpc import serve_stdio
+    # stdin/stdout by default (pool workers); `--unix PATH --idle-timeout S` for the launcher smoke run of C33
+    from vgi_rpc.rpc import run_server
 
-    serve_stdio(make_server())
+    run_server(make_server())
